@@ -111,6 +111,23 @@ def generate(rng, tier, scale=1):
                 cases.append({"entry": "erb", "strategy": st, "freq": _f(f), "Hz": _f(hz)})
         for n in range(1, 9):
             cases.append({"entry": "erb_constants", "n": n})
+        # Stream-valued parameters, every thub-based strategy
+        for band in ("lowpass", "highpass"):
+            for st in LP_STRATS:
+                for k in (1, 3):
+                    cases.append({"entry": "stream", "design": band, "strategy": st,
+                                  "cutoff": [_f(_rand_freq(rng)) for _ in range(k)], "take": k + 2})
+        for st in RES_STRATS:
+            fs = [_f(_rand_freq(rng)) for _ in range(3)]
+            bs = [_f(_rand_bw(rng)) for _ in range(2)]
+            cases.append({"entry": "stream", "design": "resonator", "strategy": st, "freq": fs, "bandwidth": bs[0], "take": 4})
+            cases.append({"entry": "stream", "design": "resonator", "strategy": st, "freq": fs[0], "bandwidth": bs, "take": 3})
+            cases.append({"entry": "stream", "design": "resonator", "strategy": st, "freq": fs, "bandwidth": bs, "take": 7})
+        cases.append({"entry": "stream", "design": "klapuri", "strategy": "klapuri",
+                      "freq": [_f(_rand_freq(rng)) for _ in range(2)], "bandwidth": [_f(_rand_bw(rng)) for _ in range(3)], "take": 7})
+        for st in ("fb", "ff"):
+            cases.append({"entry": "stream", "design": "comb", "strategy": st, "delay": 3,
+                          "param": [_f(0.5), _f(-0.25), _f(0.75)], "take": 4})
         # malformed stream (error branches)
         cases.append({"entry": "gammatone", "strategy": "sampled", "freq": _f(0.5), "bandwidth": _f(0.1), "phase": 0, "eta": 0})
     for _ in range(n_rand):
@@ -192,6 +209,10 @@ def _coef_samples(filt, n):
     return out
 
 
+def _cyc(p, i):
+    return p[i % len(p)] if isinstance(p, list) else p
+
+
 def _param(p):
     from audiolazy import Stream
     if isinstance(p, list):
@@ -237,14 +258,22 @@ def impl(c):
                 filts = list(al.gammatone.klapuri(_param(c["freq"]), _param(c["bandwidth"])))
             else:
                 filts = [al.comb[c["strategy"]](c["delay"], _param(c["param"]))]
-            return {"samples": [_coef_samples(f, n) for f in filts]}
+            consts = []
+            for i in range(n):
+                if d in ("lowpass", "highpass"):
+                    cf = [getattr(al, d)[c["strategy"]](_fl(_cyc(c["cutoff"], i)))]
+                elif d == "resonator":
+                    cf = [al.resonator[c["strategy"]](_fl(_cyc(c["freq"], i)), _fl(_cyc(c["bandwidth"], i)))]
+                elif d == "klapuri":
+                    cf = list(al.gammatone.klapuri(_fl(_cyc(c["freq"], i)), _fl(_cyc(c["bandwidth"], i))))
+                else:
+                    cf = [al.comb[c["strategy"]](c["delay"], _fl(_cyc(c["param"], i)))]
+                consts.append([{"num": [enc(float(x)) for x in f.numerator],
+                                "den": [enc(float(x)) for x in f.denominator]} for f in cf])
+            return {"samples": [_coef_samples(f, n) for f in filts], "const": consts}
         return {"err": "bad-entry"}
     except Exception as ex:
         return {"err": err_kind(ex)}
-
-
-def _cyc(p, i):
-    return p[i % len(p)] if isinstance(p, list) else p
 
 
 def request(c):
@@ -320,7 +349,7 @@ def _cond(num, den, w):
 def _gtol(obs, w):
     """tolerance of a measured gain: the design formulas' own conditioning (GTOL) plus the rounding
     of the implementation's freq_response evaluation (64 ulp times the condition number)"""
-    return min(GTOL + 64 * EPS * _cond(obs["num"], obs["den"], w), 1e-2)
+    return GTOL + 64 * EPS * _cond(obs["num"], obs["den"], w)
 
 
 def _check_contract(name, obs, spec, out):
@@ -388,7 +417,7 @@ def _check_section(name, obs, model, w, out):
     lam = sum(x * y for x, y in zip(a, b)) / den if den else 1.0
     scale = max([1e-300] + [abs(x) for x in a])
     if any(abs(x - lam * y) > TOL * scale for x, y in zip(a, b)) or \
-            not abs(lam - 1) <= min(TOL + 64 * EPS * _cond(obs["num"], obs["den"], w), 1e-2):
+            not abs(lam - 1) <= TOL + 64 * EPS * _cond(obs["num"], obs["den"], w):
         out.append(("model", name + ":coefficients", "num (common factor %r): impl %r model %r" % (lam, a, b)))
 
 
@@ -443,16 +472,19 @@ def _problems(c, io, drv):
             for i in range(n):
                 m = drv["results"][i]["model"]
                 m = m[fi] if isinstance(m, list) else m
+                k = io["const"][i][fi]
                 for part, got in (("num", samples[0][i]), ("den", samples[1][i])):
-                    want = m[part]
                     got = list(got)
-                    while len(got) > len(want) and _fl(got[-1]) == 0:
+                    # a time varying coefficient that happens to be zero is still stored
+                    while len(got) > len(k[part]) and _fl(got[-1]) == 0:
                         got.pop()
-                    if not _close_list(got, want, TOL):
-                        # a time varying coefficient that happens to be zero is still stored
-                        out.append(("model", name + ":sample-by-sample", "instant %d %s: impl %r constant design %r" % (
-                            i, part, [_fl(x) for x in got], [_fl(x) for x in want])))
-                        out.append(("spec", name + ":sample-by-sample", "instant %d %s differs from the constant design" % (i, part)))
+                    if not _close_list(got, k[part], 1e-12):
+                        out.append(("spec", name + ":sample-by-sample", "instant %d %s: Stream-valued design %r, constant design %r" % (
+                            i, part, [_fl(x) for x in got], [_fl(x) for x in k[part]])))
+                    if not _close_list(got, m[part], TOL):
+                        out.append(("model", name + ":sample-by-sample", "instant %d %s: impl %r model %r" % (
+                            i, part, [_fl(x) for x in got], [_fl(x) for x in m[part]])))
+                    if out:
                         return out
     return out
 
@@ -495,6 +527,10 @@ def tally(eng, c, io):
         eng.count("comb_den_len", len(io["den"]))
     if e == "gammatone":
         eng.count("gammatone_sections", len(io["sections"]))
+        # how sharp the unit-gain check is: 64 ulp * condition number of the first section at freq
+        t = 64 * EPS * _cond(io["sections"][0]["num"], io["sections"][0]["den"], _fl(c["freq"]))
+        eng.count("gammatone_gain_tolerance", "<1e-9" if t < 1e-9 else "<1e-6" if t < 1e-6 else "<1e-3" if t < 1e-3
+                  else "<1e-1" if t < 1e-1 else ">=1e-1 (rounding dominates: check vacuous)")
         if c["strategy"] == "sampled":
             eng.count("gammatone_eta", c["eta"])
 
